@@ -6,8 +6,10 @@ if ! git diff --quiet; then echo "repo dirty"; exit 2; fi
 if ! git apply --check "$PATCH" 2>/dev/null; then echo "PATCH-DOES-NOT-APPLY $PATCH"; exit 3; fi
 git apply "$PATCH"
 cd /verif
+cp evidence/$PROP.json /tmp/evidence_$PROP.json.bak 2>/dev/null
 ./check $PROP $TIER "$@" 2>&1 | grep -v "conda" | grep -E "VIOLATION|KNOWN|HARNESS|cases," | cut -c1-400
 RC=${PIPESTATUS[0]}
 cd /repo && git checkout -q -- . && git status --short | head -3
 rm -rf /verif/replays/$PROP
+cp /tmp/evidence_$PROP.json.bak /verif/evidence/$PROP.json 2>/dev/null
 exit $RC
